@@ -138,6 +138,7 @@ func devMain(args []string) int {
 	preempt := fs.Int("preempt", 0, "preemption bound")
 	perm := fs.Bool("maporder", false, "explore map iteration orders")
 	forks := fs.Bool("forks", false, "profile fork sites")
+	timerrace := fs.Bool("timerrace", false, "timers may fire while other select cases are ready")
 	params := fs.String("params", "", "k=v,k=v harness parameters")
 	symlen := fs.Int("symlen", 0, "max symbolic allocation length")
 	budget := fs.Duration("budget", 0, "wall budget")
@@ -158,6 +159,7 @@ func devMain(args []string) int {
 	p.Segmentation = *seg
 	p.SegCuts = *segcuts
 	p.MapOrderPerm = *perm
+	p.TimerRace = *timerrace
 	if *symlen > 0 {
 		p.MaxSymLen = *symlen
 	}
